@@ -1,5 +1,5 @@
-(* GENERATED from P4A_Refine.v by substitution (Gen_P4A -> Gen_P4A16, minMemPoolIndex 2 -> 1): the same proof script for the
-   16-byte-item instantiation.  C12, grow round 2: the REAL BucketLimP4::AddCrt (all five branches: pvAdd0<min>, pvAdd0<max>, pvAdd<1..3>, spare memory),
+(* DERIVED on every run by prop.py from P4A_Refine.v (Gen_P4A -> Gen_P4A16, minMemPoolIndex 2 -> 1): the same proof
+   script for the 16-byte-item instantiation.  Do not edit.  C12, grow round 2: the REAL BucketLimP4::AddCrt (all five branches: pvAdd0<min>, pvAdd0<max>, pvAdd<1..3>, spare memory),
    pvGetMemPoolIndex, pvSetPtrState and WasFull are now generated (Gen_P4A, the pointer state modelled as the two scalars
    mPtrState_ptr / mPtrState_state).  Refinement: the generated AddCrt does to mShortHashes exactly what the hand
    composition P4_Model.p4_add does, and to the memory-pool index exactly what TableP4's hand bookkeeping does. *)
